@@ -605,7 +605,9 @@ func (Scenario) Run(c choice.Chooser, opt sim.Options) sim.Result {
 						a = b.inst.Artifact(b.prodName[o.Prod])
 					}()
 					detsched.Yield("client:return", int64(k))
-					if panicked {
+					if panicked || a == nil {
+						// the call failed: by panicking (the pinned tree) or
+						// by handing out no artifact
 						r.Val = "PANIC"
 						break
 					}
